@@ -63,9 +63,21 @@ class Recorder:
         if len(self.notes) < 20 and text not in self.notes:
             self.notes.append(text)
 
+    case_cpu_limit = None     # seconds of CPU one case may burn (C08)
+
     def journal(self, i):
         if self._jfd is not None:
             os.pwrite(self._jfd, struct.pack('<q', i), 0)
+        if self.case_cpu_limit:
+            # a per-case budget in CPU time, enforced by the kernel: when it
+            # expires SIGVTALRM (default action: terminate) ends the worker
+            # and the runner attributes the death to the journaled case.  No
+            # Python-level watchdog could do this: a C call that never
+            # returns (catastrophic regex backtracking, a huge allocation)
+            # holds the GIL and runs no signal handler.  CPU time, unlike
+            # wall-clock, does not depend on how loaded the machine is.
+            import signal
+            signal.setitimer(signal.ITIMER_VIRTUAL, self.case_cpu_limit)
 
     # -- violations -------------------------------------------------------
     def violation(self, mechanism, what, case, observed=None, expected=None):
